@@ -158,3 +158,48 @@ func VT_C03_CollectionOneWriter() {
 	cancel()
 	vt.Reach("done")
 }
+
+// A subscription opened while a write is being published and a previously cancelled subscription is being cleaned
+// up still converges: it receives the next write.
+func VT_C03_SubscribeDuringPublishAfterCancel_T() { vtSubscribeDuringPublish(true) }
+
+// quick variant: the cancelled subscription is a bare bus listener (fewer goroutines to interleave)
+func VT_C03_SubscribeDuringPublishAfterCancel() { vtSubscribeDuringPublish(false) }
+
+func vtSubscribeDuringPublish(fullPull bool) {
+	v := NewValue(WithInitialValue(&T3{DefaultInt32: 100}))
+	gctx, gcancel := context.WithCancel(context.Background())
+	if fullPull {
+		_ = v.Pull(gctx, WithBackpressure(true))
+	} else {
+		_ = v.bus.Listen(gctx)
+	}
+	gcancel() // cancelled, not yet removed from the bus
+	ctx, cancel := context.WithCancel(context.Background())
+	var wg sync.WaitGroup
+	wg.Add(2)
+	go func() { defer wg.Done(); v.Set(&T3{DefaultInt32: 11}) }()
+	var last int32
+	seen := make(chan struct{})
+	go func() {
+		defer wg.Done()
+		ch := v.Pull(ctx, WithBackpressure(true))
+		go func() {
+			for e := range ch {
+				x := e.Value.(*T3).DefaultInt32
+				if x == vtSentinel {
+					close(seen)
+					continue
+				}
+				last = x
+			}
+		}()
+	}()
+	wg.Wait()
+	final := v.Get().(*T3).DefaultInt32
+	v.Set(&T3{DefaultInt32: vtSentinel})
+	<-seen // blocks forever (reported as a deadlock) if the subscription was lost
+	vt.Assert(last == final, "late-subscriber-view-converges")
+	cancel()
+	vt.Reach("done")
+}
